@@ -3,4 +3,4 @@ from reamber.base import item_props
 
 @item_props()
 class BMSNoteMeta:
-    _props = dict(sample=["b", 0])
+    _props = dict(sample=["object", b""])
